@@ -83,6 +83,11 @@ func FamilyOf(prop string, seed, i uint64) string {
 	switch prop {
 	case "C04", "C06", "C07", "C11", "C15", "C20":
 		return "base"
+	case "C16":
+		if i%3 == 0 {
+			return "base"
+		}
+		return "reconn"
 	case "C13":
 		if i%2 == 0 {
 			return "keepalive"
